@@ -7,9 +7,9 @@
 //!       bo    l | B            typ 1..4 (call reply error signal) | 0 (Invalid)
 //!       flags 0..255           serial 1..2^32-1       rs = reply serial or -
 //!       string fields: hex of the UTF-8 bytes, `-` = None, `e` = Some("")
-//!       body  raw:<bodyhex>:<sighex>:<nfds>   (MarshalledMessageBody::from_parts)
+//!       body  raw:<bodyhex>:<sighex>:<nfds>[:<taken>]   (MarshalledMessageBody::from_parts; <taken> of the handles have their descriptor taken)
 //!             push:<item>,<item>,..           items y<n> u<n> t<n> s<hex> o<hex> h (descriptor) vu<n> (variant of u32) as<hex>;<hex>
-//!     -> B:<bodyhex>:<sighex>:<nfds> H:<headerhex|err> D:<decoded>
+//!     -> B:<bodyhex>:<sighex>:<nfds> L:<handles whose descriptor is still there> H:<headerhex|err> D:<decoded>
 //!   (an optional 14th argument X:<serial|->:<sighex|-|e>:<num_fds|-> of `m` sets dynheader.serial/signature/num_fds to stale values)
 //!   r <m args> <body2> <serial2>   marshal, decode, replace the DECODED message's body by body2, marshal with serial2 -> R:ok B:.. H:..
 //!   w <m args>                 send through a real connection (send_message_write_all), bytes read at the peer -> B:.. W:<hex|err>
@@ -21,6 +21,7 @@
 //!   n <hex>                    RecvConn::bytes_needed_for_current_message after the bytes were written to the peer
 //!                              end of a fresh connection and (if >= 16 bytes) one read_once
 //!     -> N:<n|err>
+//!   n2 <hex>                   like n, with a second read_once so that more than 16 bytes are buffered
 //!   f                          HeaderFlags: for each flag 256 entries
 //!     -> F <raw0> <256 x is/set/unset/toggle> ...
 //!   decoded := err@<stage> | ok be:<0|1> t:<n> f:<n> bl:<n> ser:<n> used:<n> rs:<n|-> i:<s> d:<s> sn:<s> m:<s> p:<s> e:<s> g:<s> fd:<n|->
@@ -87,7 +88,15 @@ fn raw_body(spec: &str, bo: ByteOrder) -> Option<MarshalledMessageBody> {
     let buf = unhex(p[0]);
     let sig = String::from_utf8(unhex(p[1])).expect("utf8 sig");
     let n: usize = p[2].parse().unwrap();
-    let fds = (0..n).map(|_| new_fd()).collect();
+    let fds: Vec<UnixFd> = (0..n).map(|_| new_fd()).collect();
+    // optional 4th part: that many of the handles have their descriptor taken (through a clone, as a user of
+    // UnixFd::take_raw_fd would) - the handle stays in the body, the descriptor is gone
+    let taken: usize = p.get(3).map(|x| x.parse().unwrap()).unwrap_or(0);
+    for fd in fds.iter().take(taken) {
+        if let Some(raw) = fd.clone().take_raw_fd() {
+            let _ = nix::unistd::close(raw);
+        }
+    }
     Some(MarshalledMessageBody::from_parts(buf, 0, fds, sig, bo))
 }
 
@@ -133,10 +142,11 @@ fn build_body(spec: &str, bo: ByteOrder) -> MarshalledMessageBody {
 
 fn body_desc(msg: &MarshalledMessage) -> String {
     format!(
-        "B:{}:{}:{}",
+        "B:{}:{}:{} L:{}",
         bhex(msg.get_buf()),
         bhex(msg.get_sig().as_bytes()),
-        msg.body.get_fds().len()
+        msg.body.get_fds().len(),
+        msg.body.get_raw_fds().len()
     )
 }
 
@@ -445,6 +455,27 @@ fn op_n(bytes: &[u8]) -> String {
     }
 }
 
+/// like `n`, but a second read_once buffers the rest of the input (up to the announced length) first, so
+/// bytes_needed_for_current_message is observed with more than 16 bytes buffered
+fn op_n2(bytes: &[u8]) -> String {
+    let (mut conn, mut peer) = connect_pair(false);
+    peer.write_all(bytes).unwrap();
+    peer.flush().unwrap();
+    let t = Timeout::Duration(std::time::Duration::from_secs(30));
+    if bytes.len() >= 16 {
+        if conn.recv.read_once(t).is_err() {
+            return "N:err".to_string();
+        }
+        if bytes.len() > 16 && conn.recv.read_once(t).is_err() {
+            return "N:err".to_string();
+        }
+    }
+    match conn.recv.bytes_needed_for_current_message() {
+        Ok(n) => format!("N:{}", n),
+        Err(_) => "N:err".to_string(),
+    }
+}
+
 fn op_f() -> String {
     let mut out = String::from("F");
     for f in [
@@ -469,6 +500,13 @@ fn op_f() -> String {
 }
 
 fn main() {
+    // messages with a few hundred descriptors are built (and decoded with as many fresh ones)
+    {
+        use nix::sys::resource::{getrlimit, setrlimit, Resource};
+        if let Ok((_soft, hard)) = getrlimit(Resource::RLIMIT_NOFILE) {
+            let _ = setrlimit(Resource::RLIMIT_NOFILE, hard, hard);
+        }
+    }
     rbverif::line_loop(|line| {
         let parts: Vec<&str> = line.split(' ').collect();
         let r = match parts[0] {
@@ -479,6 +517,7 @@ fn main() {
             "s" => op_s(&parts[1..]),
             "d" => format!("D:{}", decode(&unhex(parts[1]), parts.get(2).map(|x| x.parse().unwrap()).unwrap_or(0))),
             "n" => op_n(&unhex(parts[1])),
+            "n2" => op_n2(&unhex(parts[1])),
             "f" => op_f(),
             _ => "?".to_string(),
         };
